@@ -28,7 +28,8 @@
 (*        a packet from the interface's address to an outside destination leaves through that   *)
 (*        interface; the next hop is the configured gateway -- for the veth datapath the        *)
 (*        link-local stub 169.254.1.1 / fe80::1 is accepted as well (the pod's gateway there is *)
-(*        the host end of the veth);                                                            *)
+(*        the host end of the veth), and when the stub is the next hop it must be resolvable:   *)
+(*        owned by the host end or a permanent neighbour with the host end's MAC;               *)
 (*      - policy-route veth, host namespace: a packet from the pod's address entering on the    *)
 (*        pod's veth leaves through the ENI of the configuration via that ENI's gateway (for a  *)
 (*        trunk member: the trunk ENI's gateway, ENIGatewayIP -- strict, it is "that            *)
@@ -88,6 +89,12 @@ Mentions(x, c) ==
       [] x.k = "rule"  -> x.v.src \in PodAddrs(c) \/ x.v.dst \in PodAddrs(c)
 
 (* ---------------------------------------------------------------- clauses about one live attachment c in namespaces S *)
+(* the veth datapath's in-pod gateway is a link-local stub nobody owns by default: a packet only leaves the pod if the host *)
+(* end of the veth carries that address (and answers ARP/ND) or the pod has a permanent neighbour entry for it with the    *)
+(* host end's MAC                                                                                                          *)
+StubResolvable(S, c, f) ==
+    \/ \E a \in S[0].addrs : a.dev = c.hostveth /\ a.ip = LinkIP(f)
+    \/ \E n \in S[c.pod].neighs : n.dev = c.ifname /\ n.ip = LinkIP(f) /\ \E l \in S[0].links : l.name = c.hostveth /\ l.mac = n.mac
 ViolInPod(S, c) ==
     LET C == S[c.pod] IN
     (IF \A f \in Fams(c) : \E a \in C.addrs : a.dev = c.ifname /\ a.ip = IPof(c, f) THEN {} ELSE {"pod_interface_lacks_pod_address"})
@@ -96,6 +103,9 @@ ViolInPod(S, c) ==
                   r.kind = "unicast" /\ r.dev = c.ifname
                   /\ r.gw \in ({GWof(c, f)} \cup (IF c.dp = "policy" THEN {LinkIP(f)} ELSE {}))
           THEN {} ELSE {"from_pod_not_via_own_interface_and_gateway"})
+    \cup (IF c.dp = "policy" /\ (c.defroute \/ c.multi) =>
+              \A f \in Fams(c) : (\E r \in Lookups(C, Pkt(IPof(c, f), Ext(f), "")) : r.gw = LinkIP(f)) => StubResolvable(S, c, f)
+          THEN {} ELSE {"link_local_gateway_not_resolvable"})
     \cup (IF \A f \in {4, 6} :
               /\ Cardinality({ r \in C.routes : r.table = TMain /\ r.dst = Default(f) /\ r.dev = c.ifname })
                     = (IF f \in Fams(c) /\ c.defroute THEN 1 ELSE 0)
@@ -213,7 +223,7 @@ RouteOf(r) == [table |-> r.table, dst |-> [ip |-> r.dst.ip, len |-> r.dst.len], 
                type |-> r.type, proto |-> r.proto]
 RuleOf(r) == [fam |-> r.fam, prio |-> r.prio, src |-> [ip |-> r.src.ip, len |-> r.src.len], dst |-> [ip |-> r.dst.ip, len |-> r.dst.len],
               iif |-> r.iif, oif |-> r.oif, table |-> r.table, proto |-> r.proto]
-LinkOf(l) == [name |-> l.name, idx |-> l.idx, kind |-> l.kind, peer |-> l.peer]
+LinkOf(l) == [name |-> l.name, idx |-> l.idx, kind |-> l.kind, peer |-> l.peer, mac |-> l.mac]
 
 (* nic.Setup order: addresses, neighbours, routes, rules *)
 ApplyConf(S, cf) ==
